@@ -478,12 +478,22 @@ class Sib:
         """PAIR-1: overlap = overlap_0 * sum of Wick ratios; the ratios come from the Green's function of the
         reference determinant, so overlap_0 and the Green's function must select the same occupied rows of the
         same walker block, and block s must be selected with ref_det[s] / nelec[s]."""
-        from ..symex import func_name, strip_wrappers, subterms
+        from ..symex import func_name, match_vmap, mk, strip_wrappers, subterms
         for meth, blocks in (("_calc_overlap", {"walker_up": 0, "walker_dn": 1}), ("_calc_overlap_restricted", {"walker": 0})):
             e = self.E("multislater", meth)
             sel: Dict[str, Dict[str, set]] = {}
             spin_bad = []
-            for x in subterms(e.result):
+            pool = list(subterms(e.result))
+            # values a mapped local function / partial application captures are part of the expression
+            for x in list(pool):
+                vm = match_vmap(x) if x.op == "call" else None
+                if vm is not None and vm[0].op == "closure":
+                    try:
+                        body = self.ev.open_closure(vm[0], [mk("vmap_elem", a_, 0) for a_ in vm[2]])
+                    except Exception:
+                        continue
+                    pool.extend(subterms(body))
+            for x in pool:
                 if x.op == "call" and (func_name(x) or "").split(".")[-1] in ("det", "inv"):
                     kind = (func_name(x) or "").split(".")[-1]
                     a = strip_wrappers(x.args[1]) if len(x.args) > 1 else None
@@ -503,6 +513,10 @@ class Sib:
                             spin_bad.append(f"{kind}({w}[...]) selects with ref_det{sorted(refs)} / nelec{sorted(nel)}")
             ok = bool(sel) and all(v.get("det") and v.get("det") == v.get("inv") for v in sel.values()) and \
                 set(sel) == set(blocks)
+            if not ok and (set(sel) != set(blocks) or any(not v.get("det") or not v.get("inv") for v in sel.values())):
+                self.ctx.rep.note(f"multislater.{meth}: the det / inv of selected walker rows were not both found for every "
+                                  f"walker block ({ {w: sorted(v) for w, v in sel.items()} }); the row pairing is not decided")
+                continue
             self.ctx.ob("PAIR-1", f"multislater.{meth}: reference overlap and Green's function select the same occupied rows",
                         ok, "; ".join(f"{w}: det {len(v.get('det', ()))} / inv {len(v.get('inv', ()))} selector(s)"
                                       + ("" if v.get("det") == v.get("inv") else " DIFFERENT") for w, v in sorted(sel.items()))
